@@ -7,21 +7,24 @@
   The input is a sequence of sessions, each introduced by `NEW <kind> <args…>`.
 -/
 import Flamego.Driver.Writer
+import Flamego.Driver.Router
 open Flamego Flamego.Driver
 
-def dispatch (_o : Oracle) (kind : String) (args : List String) (body : List (List String)) : List String :=
+def dispatch (o : Oracle) (kind : String) (args : List String) (body : List (List String)) : List String :=
   match kind with
   | "writer" => Writer.session args body
+  | "router" => Router.session o.engine args body
   | _ => "bad-kind" :: body.map (fun _ => "bad-kind")
 
-def dispatchQueries (kind : String) (_args : List String) (_body : List (List String)) : List String :=
+def dispatchQueries (kind : String) (args : List String) (body : List (List String)) : List String :=
   match kind with
+  | "router" => Router.queries args body
   | _ => []
 
 partial def readLines (h : IO.FS.Stream) (acc : Array String) : IO (Array String) := do
   let line ← h.getLine
   if line.isEmpty then return acc
-  let line := if line.back == '\n' then line.dropRight 1 else line
+  let line := if line.back == '\n' then String.ofList line.toList.dropLast else line
   readLines h (acc.push line)
 
 /-- split into sessions at `NEW` lines; lines before the first NEW are answered `no-session` -/
